@@ -24,6 +24,9 @@ func TestSweep(t *testing.T) {
 			for a := 0; a <= K; a++ {
 				for b := a; b <= K; b++ {
 					out = append(out, Win{Kr: K, A: a, B: b, Fix: (a + b) % 3})
+					if a == 0 && b == K {
+						out = append(out, Win{Kr: K, A: a, B: b, Fix: 3}) // the root header itself, filled only through an alias
+					}
 					if b < K && C >= 2 {
 						out = append(out, Win{Kr: K, A: a, B: b, Partial: 1})
 					}
